@@ -1070,7 +1070,7 @@ static const Entry kTable[] = {
 };
 
 int main(int argc, char **argv) {
-  G().announceInjection = true;
+  announceInjection() = true;
   if (argc < 2) {
     for (size_t i = 0; i < sizeof(kTable) / sizeof(kTable[0]); ++i) std::printf("%s\n", kTable[i].name);
     return 0;
